@@ -52,6 +52,8 @@ def scenario(rng, kind):
             if x < p_loss + p_late + p_dup:
                 return [0.01, rng.choice([0.02, 0.25, 2.0])]
             return [0.01]
+        if kind == "stall":
+            sc.stalls(env.rng(f"c06-stall-{rng.random()}"))
         if kind == "chatter":
             # replies are mostly lost while the spa keeps sending unsolicited partial updates: an attempt's
             # timeout runs from its own transmission, whatever else arrives in the meantime
@@ -131,7 +133,7 @@ def run(ctx):
     logs = []
     n = 24 if ctx.quick else 400
     for i in range(n):
-        kind = "gate" if i % 8 == 7 else "gate-active" if i % 8 == 3 else "chatter" if i % 8 == 5 else "calls"
+        kind = "gate" if i % 8 == 7 else "gate-active" if i % 8 == 3 else "chatter" if i % 8 == 5 else "stall" if i % 8 == 1 else "calls"
         logs.append(scenario(rng, kind))
     c = consts()
     verdicts, _ = tlc.validate("AsyncEngine_Trace", logs, "c06", CFG.format(**c), chunk=6, heap="2g", jobs=12)
